@@ -514,8 +514,14 @@ def classify_cc(d: dict, cfg: dict, mode: dict, names: dict, cache: dict, outdir
     m = re.search(r"^(\S+): No such file or directory", msg)
     if m:
         return {"cause": "closure", "detail": include_kind(m.group(1)), "scope": ("omit",)}
-    if "NUNAVUT_SUPPORT_LANGUAGE_OPTION_" in line and "static_assert" in line and cfg["omit"]:
-        return {"cause": "static_assert-on-undefined-support-macro", "detail": "", "scope": ("omit",), "neutralise": ["-Dstatic_assert(...)=struct vf_c06_neutralised_"]}
+    if "NUNAVUT_SUPPORT_LANGUAGE_OPTION_" in line and "static_assert" in line and cfg["omit"] and re.search(r"expected '\)' before '=='|not declared|undeclared", msg):
+        # look-behind: give the macros that nothing defines in this mode exactly the values the header expects
+        defs = sorted(set(re.findall(r"static_assert\(\s*(NUNAVUT_SUPPORT_LANGUAGE_OPTION_\w+)\s*==\s*([\w.+-]+)\s*,", "\n".join(l for ls in cache.values() for l in ls))))
+        return {"cause": "static_assert-on-undefined-support-macro", "detail": "", "scope": ("omit",), "neutralise": [(f"-D{k}={v}",) for k, v in defs]}
+    if target == "c" and mode["x"] == "c" and re.match(r"\s*static_assert\s*\(", line) and re.search(r"^expected (declaration specifiers|'\)'|identifier)", msg):
+        return {"cause": "missing-include", "detail": "<assert.h>", "scope": ("omit",), "neutralise": [("-include", "assert.h")]}
+    if opt.endswith("=trigraphs") and "??/" in msg:
+        return {"cause": "doc-comment", "detail": "trailing-backslash", "scope": ()}  # ??/ is the trigraph spelling of a backslash
     if "integer constant is so large that it is unsigned" in msg or "integer constant is too large" in msg:
         return {"cause": "literal", "detail": "int64-min" if "9223372036854775808" in line else "integer-too-large", "scope": ()}
     if "floating constant" in msg:
@@ -534,7 +540,7 @@ def classify_cc(d: dict, cfg: dict, mode: dict, names: dict, cache: dict, outdir
             if n in m.group(1) and m.group(1) != n:
                 return {"cause": "name|member-declared-and-used-under-different-stropped-names", "detail": m.group(1).replace(n, "<name>"), "scope": ()}
     if target == "cpp" and re.search(r"'size_t' (does not name a type|has not been declared)", msg) and re.search(r"\bsize_t index\(\) const|template<size_t I\b", line):
-        return {"cause": "unqualified-size_t", "detail": "", "scope": ("omit",), "neutralise": ["-include", "cstddef"]}
+        return {"cause": "unqualified-size_t", "detail": "", "scope": ("omit",), "neutralise": [("-include", "cstddef")]}
     # an identifier of the universe at the error location.  The signatures are deliberately coarse (one per target and kind of
     # name, the identifier itself goes into the description): which identifier of a family a run happens to draw, and in
     # which position, must not change the signature.
@@ -553,18 +559,18 @@ def classify_cc(d: dict, cfg: dict, mode: dict, names: dict, cache: dict, outdir
         x = ms.group(1) or ms.group(2)
         for pat, hdr in _CPP_DECL_HEADER:
             if pat.search(x):
-                return {"cause": "missing-include", "detail": f"<{hdr}>", "scope": ("omit",), "neutralise": ["-include", hdr]}
+                return {"cause": "missing-include", "detail": f"<{hdr}>", "scope": ("omit",), "neutralise": [("-include", hdr)]}
         return {"cause": "missing-include", "detail": f"std::{x}", "scope": ("omit",)}
     if target == "cpp" and "no matching function for call to 'operator new(" in msg:
-        return {"cause": "missing-include", "detail": "<new>", "scope": ("omit",), "neutralise": ["-include", "new"]}
+        return {"cause": "missing-include", "detail": "<new>", "scope": ("omit",), "neutralise": [("-include", "new")]}
     if m:
         x = m.group(1) or m.group(2)
         if target == "cpp" and x in ("size_t", "ptrdiff_t"):
-            return {"cause": "unqualified-" + x, "detail": "", "scope": ("omit",), "neutralise": ["-include", "cstddef"]}
+            return {"cause": "unqualified-" + x, "detail": "", "scope": ("omit",), "neutralise": [("-include", "cstddef")]}
         if target == "c":
             for pat, hdr in _C_DECL_HEADER:
                 if pat.search(x):
-                    return {"cause": "missing-include", "detail": f"<{hdr}>", "scope": ("omit",), "neutralise": ["-include", hdr]}
+                    return {"cause": "missing-include", "detail": f"<{hdr}>", "scope": ("omit",), "neutralise": [("-include", hdr)]}
     where = "support-header" if "nunavut/support" in f else "type-header"
     return {"cause": "diag", "detail": f"{where}|{opt or d.get('kind', '?')}|{normalise_text(msg)}", "scope": ("omit",)}
 
@@ -600,9 +606,10 @@ def check_header(cfg: dict, mode: dict, outdirs: typing.List[str], hdr: str, nam
             macro_cache.append(set(re.findall(r"^#define (\w+)", p.stdout, re.M)))
         return macro_cache[0]
 
-    for _round in range(6):
-        rc, diags, cmd = run_compiler(mode, outdirs, hdr, extra)
-        more: typing.List[str] = []
+    units: typing.List[typing.Tuple[str, ...]] = []
+    for _round in range(8):
+        rc, diags, cmd = run_compiler(mode, outdirs, hdr, [a for u in units for a in u])
+        grew = False
         for d in significant(diags):
             c = classify_cc(d, cfg, mode, names, cache, outdirs, macros)
             key = (c["cause"], c["detail"])
@@ -621,11 +628,13 @@ def check_header(cfg: dict, mode: dict, outdirs: typing.List[str], hdr: str, nam
                 c["mode"] = mode["mode"]
                 found[key] = c
                 if n:
-                    more += n
                     neutralised.append(c["cause"] + (("|" + c["detail"]) if c["detail"] else ""))
-        if not more:
+            for u in n or []:
+                if u not in units:
+                    units.append(u)
+                    grew = True
+        if not grew:
             break
-        extra = extra + more
     return list(found.values())
 
 
@@ -932,10 +941,11 @@ def evaluate(u: dict, cfgs: typing.List[dict], work: Work, pool: cf.Executor, la
     return evaluate_many([u], cfgs, work, pool, layout)[0]
 
 
-def evaluate_many(us: typing.List[dict], cfgs: typing.List[dict], work: Work, pool: cf.Executor, layout: typing.Optional[str] = None) -> typing.List[dict]:
+def evaluate_many(us: typing.List[dict], cfgs, work: Work, pool: cf.Executor, layout: typing.Optional[str] = None) -> typing.List[dict]:
+    """`cfgs`: one list of configurations for all universes, or a function universe-index -> list."""
     outs = []
     s1_futs = []
-    for u in us:
+    for ui, u in enumerate(us):
         uhash = core.jhash(u)
         udir = work.udir(u)
         try:
@@ -946,7 +956,7 @@ def evaluate_many(us: typing.List[dict], cfgs: typing.List[dict], work: Work, po
         o = {"u": u, "uhash": uhash, "udir": udir, "rejected": rejected, "layout": layout or layout_of(uhash), "names": names_of(u), "results": {}}
         outs.append(o)
         if rejected is None:
-            for cfg in cfgs:
+            for cfg in cfgs(ui) if callable(cfgs) else cfgs:
                 s1_futs.append((o, cfg, pool.submit(stage1, u, cfg, udir, o["layout"])))
     s2_futs = []
     for o, cfg, fut in s1_futs:
@@ -1061,6 +1071,22 @@ def directed_pool() -> dict:
             attrs += [_F({"t": "varr", "elem": {"t": "uint", "bits": 16, "cast": "saturated"}, "cap": 2, "incl": True}, "zz_tail_array"), _F(_U8, "zz_tail")]
             types.append(_T(["pool", cls], f"S{i}", attrs))
             types.append(_T(["pool", cls], f"U{i}", attrs, union=True))
+            # the same names as constants
+            types.append(_T(["pool", cls], f"K{i}", [_K(kinds[(i + j) % 2 * 3], n, "1" if (i + j) % 2 == 0 else "1/2") for j, n in enumerate(ch)] + [_F(_U8, "zz_tail")]))
+        # the same names as nested namespace components (six per path; one failing component hides the deeper ones, which is
+        # harmless because the signatures are per name class)
+        seen_first: typing.Set[str] = set()
+        path: typing.List[str] = []
+        k = 0
+        for n in names + [None]:
+            if n is not None and (path or dsdlgen.fold(n) not in seen_first):
+                if not path:
+                    seen_first.add(dsdlgen.fold(n))
+                path.append(n)
+            if path and (n is None or len(path) == 6):
+                types.append(_T(["pool", cls + "_ns"] + path, f"N{k}", [_F(_U8, "ok")]))
+                k += 1
+                path = []
     return {"roots": [{"name": "pool", "types": types}]}
 
 
@@ -1119,10 +1145,26 @@ def directed_shadow(root: str) -> typing.Callable[[], dict]:
     return lambda: {"roots": [{"name": root, "types": [_T([root], "T", [_F(_U8, "x")])]}]}
 
 
+def directed_rootnames() -> dict:
+    """Pool names as ROOT namespace names (only there do C++ namespaces meet the global scope); one tiny type per root."""
+    roots, seen = [], set()
+    for cls in ("pattern", "internal", "internal2"):
+        for n in dsdlgen._pool(cls) if cls != "internal2" else [x for x in EXTRA_INTERNAL if dsdlgen._dsdl_name_ok(x)]:
+            if dsdlgen.fold(n) not in seen:
+                seen.add(dsdlgen.fold(n))
+                roots.append({"name": n, "types": [_T([n], "T", [_F(_U8, "x"), _F({"t": "varr", "elem": _U8, "cap": 2, "incl": True}, "y")])]})
+    return {"roots": roots}
+
+
 DIRECTED = {
     "extremes": directed_extremes, "macros": directed_macros, "pool": directed_pool, "shapes": directed_shapes,
-    "root-named-numpy": directed_shadow("numpy"), "root-named-pydsdl": directed_shadow("pydsdl"),
+    "root-named-numpy": directed_shadow("numpy"), "root-named-pydsdl": directed_shadow("pydsdl"), "rootnames": directed_rootnames,
 }  # fmt: skip
+
+# sub-domains that are only meaningful (and only affordable) for some configurations
+DIRECTED_CFG_FILTER = {
+    "rootnames": lambda cfg: cfg["target"] == "cpp" and not cfg["omit"] and cfg["std"] in ("c++14", "c++17-pmr"),
+}
 
 
 # ---------------------------------------------------------------------------------------------------------------------
@@ -1283,7 +1325,7 @@ def run(ctx: core.Ctx):
         "exhaustively in its own directed universe and excluded from the random name pools",
         "-fsyntax-only: diagnostics that need optimisation passes (e.g. -Wmaybe-uninitialized) are out of scope",
     ]
-    n_random = 20 if ctx.quick else 240
+    n_random = 16 if ctx.quick else 240
     chunk = 16
     cfgs = all_configs()
     work = Work()
@@ -1297,7 +1339,7 @@ def run(ctx: core.Ctx):
             todo = directed + randoms
             for i in range(0, len(todo), chunk):
                 part = todo[i : i + chunk]
-                outs = evaluate_many([u for _, u in part], cfgs, work, pool)
+                outs = evaluate_many([u for _, u in part], lambda i: [c for c in cfgs if DIRECTED_CFG_FILTER.get(part[i][0], lambda _c: True)(c)], work, pool)
                 for (origin, _), o in zip(part, outs):
                     if o["rejected"] is not None:
                         if origin != "random":
